@@ -463,3 +463,77 @@ Example C01_drain_then_send_on_the_same_history :
   let s := prun (pinit exq_st) exq_ops in
   snd (match_request (snd (q_engine (pquiesce s))) exl_rq) = true.
 Proof. exact drain_then_send_on_the_same_history. Qed.
+
+(** * The safe-browsing / parental verdict is the hash-prefix checker's (round 4)
+
+    In the layer-A theorems the verdicts of safe browsing and parental
+    control are oracles [sb], [par].  Property C19 models the checker behind
+    them (Model/HashPrefix.v); here the two models are put together. *)
+From AGH Require Import Model.HashPrefix Proofs.HashPrefix Proofs.PipelineSB.
+
+(** What the oracle is: the outcome of Checker.Check for any cache contents
+    consistent with the service's database, any map order, evictions and
+    instant, whenever the lookup does not fail. *)
+Theorem C01_sb_oracle_is_checker_verdict :
+  forall sha pubsuf suffix cache_time db svc order evs now host cch,
+  cache_inv db cch -> svc_ok db svc ->
+  let res := check sha pubsuf suffix cache_time svc order evs now host cch in
+  o_err (snd res) = false -> o_blocked (snd res) = db_verdict sha pubsuf db host.
+Proof. exact checker_verdict_is_db_verdict. Qed.
+Print Assumptions C01_sb_oracle_is_checker_verdict.
+
+(** A name one of whose checked forms has its full hash in the service's
+    database, safe browsing on for the client, protection on, no earlier
+    stage, rewrite, rule list or blocked service deciding: the pipeline
+    reports FilteredSafeBrowsing, answers with the block page and asks the
+    upstream at most for a block page given as a name (never for the name). *)
+Theorem C01_listed_hash_is_blocked :
+  forall sha pubsuf allow_eng block_eng par ss srt db c up q,
+  reaches_hash_checks allow_eng block_eng srt c q ->
+  st_safebrowsing (request_settings c q) = true ->
+  (exists n, In n (names_to_hash pubsuf (host_of q)) /\ In (sha n) db) ->
+  let o := process allow_eng block_eng (db_verdict sha pubsuf db) par ss srt c up q in
+  o_result o = sb_result /\
+  o_resp o = Some (fst (filter_message c up (q_name q) (q_qtype q) sb_result)) /\
+  o_calls o = blockpage_calls c (q_qtype q) sb_result /\
+  o_qname o = q_name q.
+Proof. exact listed_hash_is_blocked. Qed.
+Print Assumptions C01_listed_hash_is_blocked.
+
+Theorem C01_unlisted_hash_not_blocked_by_safebrowsing :
+  forall sha pubsuf allow_eng block_eng par ss srt db c q res,
+  (forall n, In n (names_to_hash pubsuf (host_of q)) -> ~ In (sha n) db) ->
+  verdict allow_eng block_eng (db_verdict sha pubsuf db) par ss srt c q = Some res ->
+  reaches_hash_checks allow_eng block_eng srt c q ->
+  r_reason res <> FilteredSafeBrowsing.
+Proof. exact unlisted_hash_not_blocked_by_sb. Qed.
+Print Assumptions C01_unlisted_hash_not_blocked_by_safebrowsing.
+
+(** The same shape for any oracle, safe browsing and parental control. *)
+Theorem C01_safebrowsing_verdict_blocks :
+  forall allow_eng block_eng sb par ss srt c up q,
+  sb_blocked_by_spec allow_eng block_eng sb srt c q ->
+  let o := process allow_eng block_eng sb par ss srt c up q in
+  o_result o = sb_result /\
+  o_resp o = Some (fst (filter_message c up (q_name q) (q_qtype q) sb_result)) /\
+  o_calls o = blockpage_calls c (q_qtype q) sb_result /\
+  o_qname o = q_name q.
+Proof. exact sb_listed_is_blocked. Qed.
+Print Assumptions C01_safebrowsing_verdict_blocks.
+
+Theorem C01_parental_verdict_blocks :
+  forall allow_eng block_eng sb par ss srt c up q,
+  par_blocked_by_spec allow_eng block_eng sb par srt c q ->
+  let o := process allow_eng block_eng sb par ss srt c up q in
+  o_result o = par_result /\
+  o_resp o = Some (fst (filter_message c up (q_name q) (q_qtype q) par_result)) /\
+  o_calls o = blockpage_calls c (q_qtype q) par_result /\
+  o_qname o = q_name q.
+Proof. exact par_listed_is_blocked. Qed.
+Print Assumptions C01_parental_verdict_blocks.
+
+Example C01_listed_hash_premises_satisfiable :
+  sb_blocked_by_spec (match_request []) (match_request []) (db_verdict exsb_sha exsb_pubsuf exsb_db)
+                     Rewrites.isort exsb_cfg ex_query_other /\
+  (exists n, In n (names_to_hash exsb_pubsuf (host_of ex_query_other)) /\ In (exsb_sha n) exsb_db).
+Proof. exact ex_sb_premises. Qed.
